@@ -453,25 +453,24 @@ func (p *Parser) checkNewVariableNameToken(token lexer.Token, ctx context) error
 
 func (p *Parser) getUsedFuncs(startFunc string) []string {
 	usedFuncs := []string{}
-	startFunc = strings.TrimSpace(startFunc)
+	visited := map[string]bool{}
+	pending := []string{startFunc}
 
-	if usedFuncsTemp, exists := p.usedFuncs[startFunc]; exists {
-		if len(startFunc) > 0 && !slices.Contains(usedFuncs, startFunc) {
-			usedFuncs = append(usedFuncs, startFunc)
+	// Visit every function only once. Otherwise the effort grows exponentially with the depth of the call graph.
+	for len(pending) > 0 {
+		lastIndex := len(pending) - 1
+		currentFunc := strings.TrimSpace(pending[lastIndex])
+		pending = pending[:lastIndex]
+
+		if visited[currentFunc] {
+			continue
 		}
+		visited[currentFunc] = true
 
-		for _, usedFuncTemp := range usedFuncsTemp {
-			if !slices.Contains(usedFuncs, usedFuncTemp) {
-				usedFuncs = append(usedFuncs, usedFuncTemp)
-			}
-			usedSubFuncs := p.getUsedFuncs(usedFuncTemp)
-
-			for _, usedSubFunc := range usedSubFuncs {
-				if !slices.Contains(usedFuncs, usedSubFunc) {
-					usedFuncs = append(usedFuncs, usedSubFunc)
-				}
-			}
+		if len(currentFunc) > 0 {
+			usedFuncs = append(usedFuncs, currentFunc)
 		}
+		pending = append(pending, p.usedFuncs[currentFunc]...)
 	}
 	return usedFuncs
 }
